@@ -244,7 +244,11 @@ def splitAt2 (ws : List String) : List String × List String :=
 stale state at the handler, an operator checkpoint that is not aligned, a runner cut that does not match, a stall -/
 def d39Kind (tok : String) : Bool :=
   tok.startsWith "d:" || tok.startsWith "c:" || tok.startsWith "b:" || tok == "Q" || tok == "NQ" ||
-  tok == "done" || tok == "incomplete" || tok == "none"
+  tok == "done" || tok == "incomplete" || tok == "none" ||
+  -- an operator process that is deployed again reopens its database in the same directory and rewrites the
+  -- `checkpoints` document from the checkpoint it restores: a checkpoint it took in the previous deployment and that
+  -- the job publishes later is no longer in that file, the next restore panics
+  tok.startsWith "!deploy-panic:failed_to_find_indicated_checkpoint"
 
 def firstDiff : List String → List String → Option String
   | a :: as, b :: bs => if a = b then firstDiff as bs else some a
@@ -253,7 +257,7 @@ def firstDiff : List String → List String → Option String
 
 def step' (d : DSt) (ws : List String) : DSt × String :=
   let (op, toks) := splitAt2 ws
-  if d.echo then (d, joinWith " " (if op == ["end"] then ["ok"] else toks)) else
+  if d.echo then (d, joinWith " " toks) else
   if !d.ok then (d, "desync") else
   let d := match op with
     | "feed" :: sp :: ks :: _ => { d with fed := d.fed.modify (natOr sp) (· + (ks.splitOn ",").length) }
